@@ -15,7 +15,7 @@ RULE = ('one run = one generated scenario (1-8 concurrent client conversations d
         'its own schedule; compared per connection: client byte stream, upstream byte stream, and the order of data / '
         'close events (chunking and timing ignored); non-trivial = at least two concurrent clients or more than one '
         'acceptor / worker; distinct = distinct combined event-log digests')
-PROBES = ['client_half_close', 'forward', 'forward_persistent', 'large_transfer', 'tunnel', 'web', 'reverse', 'malformed', 'refused',
+PROBES = ['non_utf8_target', 'origin_closes', 'client_half_close', 'forward', 'forward_persistent', 'large_transfer', 'tunnel', 'web', 'reverse', 'malformed', 'refused',
           'concurrent_clients', 'acceptors_gt1', 'workers_gt1', 'all_three_equal']
 COMPONENTS = {
     'real': ['proxy/proxy.py', 'proxy/core/acceptor/*.py', 'proxy/core/listener/*.py', 'proxy/core/work/threadless.py',
@@ -79,11 +79,12 @@ def run_world(tape: Any, scenario: Dict[str, Any], mode_args: List[str], nacc: i
 
                 def responder(peer: Any, info: Dict[str, Any], resps: List[bytes] = resps) -> List[Any]:
                     return [('send', resps[min(peer.served - 1, len(resps) - 1)], 'dribble', 4096)]
-                org = Origin(w, ip, 80, lambda i, responder=responder, n=len(resps): [('serve', responder, n), ('wait_eof',), ('close',)],
+                tail = [('close',)] if cn.get('origin_closes') else [('wait_eof',), ('close',)]
+                org = Origin(w, ip, 80, lambda i, responder=responder, n=len(resps), tail=tail: [('serve', responder, n)] + list(tail),
                              name='o%d' % k, read_mode='chunky')
                 for j, rq in enumerate(cn['reqs']):
                     script += [('send', rq, 'burst') if cn['burst'] else ('send', rq, 'dribble', 512), ('wait_rx', (lambda n: (lambda pe: count_responses(bytes(pe.rx)) >= n))(j + 1))]
-                script += [('close',)]
+                script += [('wait_eof',), ('close',)] if cn.get('origin_closes') else [('close',)]
             elif role == 'tunnel':
                 org = Origin(w, ip, 443, lambda i, k=k: [('wait_rx', lambda pe: len(pe.rx) >= 6), ('send', b'pong-%d' % k, 'burst'),
                                                          ('wait_eof',), ('close',)], name='o%d' % k)
@@ -106,7 +107,8 @@ def run_world(tape: Any, scenario: Dict[str, Any], mode_args: List[str], nacc: i
             elif role == 'malformed':
                 script += [('send', cn['bytes'], 'burst'), ('wait_eof',), ('close',)]
             else:       # refused upstream
-                script += [('send', b'GET http://10.1.%d.9/x HTTP/1.1\r\nHost: 10.1.%d.9\r\n\r\n' % (k, k), 'burst'),
+                script += [('send', b'GET http://10.1.%d.9/x' % k + (b'/caf\xe9' if cn.get('odd') else b'') +
+                            b' HTTP/1.1\r\nHost: 10.1.%d.9\r\n\r\n' % k, 'burst'),
                            ('wait_eof',), ('close',)]
             c = Peer(w, 'c%d' % k, script, read_mode='chunky')
             capc = 1024 if cn.get('halfclose') else 65536
@@ -156,10 +158,18 @@ def run_one(tape: Any, cfg: Dict[str, Any], forbid: FrozenSet[str] = frozenset()
             if n > 1:
                 probes.append('forward_persistent')
             reqs, resps = [], []
+            # bytes that are not UTF-8 in the target (legal octets for the relay, awkward for the access log), and an origin
+            # that ends the exchange itself so that the client sees the proxy's close
+            odd = b'/caf\xe9' if tape.coin(0.25, 'odd-bytes') else b''
+            cn['origin_closes'] = tape.coin(0.3, 'origin-closes')
+            if odd:
+                probes.append('non_utf8_target')
+            if cn['origin_closes']:
+                probes.append('origin_closes')
             for j in range(n):
                 body = b'b' * tape.draw(200, 'bodylen') if tape.coin(0.4, 'post') else b''
                 pad = b'X-Pad: ' + b'p' * [0, 0, 900, 3000][tape.draw(4, 'pad')] + b'\r\n'
-                reqs.append((b'POST' if body else b'GET') + b' http://10.1.%d.1/r%d HTTP/1.1\r\nHost: 10.1.%d.1\r\n' % (k, j, k) +
+                reqs.append((b'POST' if body else b'GET') + b' http://10.1.%d.1/r%d' % (k, j) + odd + b' HTTP/1.1\r\nHost: 10.1.%d.1\r\n' % k +
                             (pad if len(pad) > 9 else b'') +
                             (b'Content-Length: %d\r\n' % len(body) if body else b'') + b'\r\n' + body)
                 big = tape.coin(0.2, 'large')
@@ -168,7 +178,8 @@ def run_one(tape: Any, cfg: Dict[str, Any], forbid: FrozenSet[str] = frozenset()
                 size = cfg['large'] if big else tape.draw(300, 'resplen')
                 rb = (b'%d-%d:' % (k, j)) * (size // 4 + 1)
                 rb = rb[:size]
-                resps.append(b'HTTP/1.1 200 OK\r\nContent-Length: %d\r\nX-R: %d-%d\r\n\r\n' % (len(rb), k, j) + rb)
+                last = b'Connection: close\r\n' if (cn['origin_closes'] and j == n - 1) else b''
+                resps.append(b'HTTP/1.1 200 OK\r\nContent-Length: %d\r\nX-R: %d-%d\r\n' % (len(rb), k, j) + last + b'\r\n' + rb)
             cn['reqs'], cn['resps'] = reqs, resps
             cn['burst'] = tape.coin(0.5, 'burst')
         elif role == 'web':
@@ -177,6 +188,10 @@ def run_one(tape: Any, cfg: Dict[str, Any], forbid: FrozenSet[str] = frozenset()
                 cn['halfclose'] = tape.coin(0.6, 'halfclose')
                 if cn['halfclose']:
                     probes.append('client_half_close')
+        elif role == 'refused':
+            cn['odd'] = tape.coin(0.3, 'odd-bytes')
+            if cn['odd']:
+                probes.append('non_utf8_target')
         elif role == 'malformed':
             cn['bytes'] = [b'garbage\r\n\r\n', b'GET ftp://x/ HTTP/1.1\r\n\r\n', b'GET / HTTP/9.9\r\n\r\n'][tape.draw(3, 'bad')]
         conns.append(cn)
